@@ -29,7 +29,7 @@ GLOBAL_RNG_OK = {"RandomState", "default_rng", "Generator", "SeedSequence"}
 
 # rules that keep their verdict however the code is laid out (decided by term equality, effect analysis or dominance over
 # resolved calls); every other rule of this check is a template rule (vcheck.core.Check.obt)
-SEMANTIC = ('R19.cap', 'R19.chol', 'R19.gen')
+SEMANTIC = ('R19.cap', 'R19.chol', 'R19.gen', 'R19.ind')
 
 
 def run(chk):
@@ -119,7 +119,7 @@ def _value_names(x):
 
 def _polar_predicates(repo, fi, param):
     """the maximal boolean expressions of fi that depend on nothing but the centre latitude `param` (comparisons of it, or of its
-    absolute value, with literals): [(node, sympy set of latitudes where it holds or None)]"""
+    absolute value, with literals): [(node, set of latitudes where it holds or None, [(sub-condition node, its set or None), ...])]"""
     out = []
     covered = set()
     lat = sp.Symbol(param, real=True)
@@ -128,24 +128,31 @@ def _polar_predicates(repo, fi, param):
             continue
         if isinstance(x, ast.UnaryOp) and not isinstance(x.op, ast.Not):
             continue
-        if _value_names(x) != {param} or not any(isinstance(y, ast.Compare) for y in ast.walk(x)):
+        cmps = [y for y in ast.walk(x) if isinstance(y, ast.Compare)]
+        if _value_names(x) != {param} or not cmps:
+            continue
+        if not all(isinstance(o, (ast.Lt, ast.LtE, ast.Gt, ast.GtE)) for y in cmps for o in y.ops):
             continue
         if any(isinstance(y, ast.Call) and call_name(y) not in ("abs", "fabs", "absolute") for y in ast.walk(x)):
             continue
         if any(isinstance(y, (ast.Attribute, ast.Subscript)) and not any(isinstance(c, ast.Call) and y in ast.walk(c.func) for c in ast.walk(x)) for y in ast.walk(x)):
             continue
         covered |= {id(y) for y in ast.walk(x)}
-        where = None
-        try:
-            env = symx.Env(symx.SymEval(repo), fi, fi.module, {param: lat}, {})
-            t = env.truth(x)
-            if isinstance(t, bool):
-                where = sp.S.Reals if t else sp.S.EmptySet
-            elif isinstance(t, sp.Basic):
-                where = t.as_set()
-        except Exception:
-            where = None
-        out.append((x, where))
+        parts = []
+        for y in ast.walk(x):
+            if isinstance(y, (ast.BoolOp, ast.Compare)) or (isinstance(y, ast.UnaryOp) and isinstance(y.op, ast.Not)):
+                where = None
+                try:
+                    env = symx.Env(symx.SymEval(repo), fi, fi.module, {param: lat}, {})
+                    t = env.truth(y)
+                    if isinstance(t, bool):
+                        where = sp.S.Reals if t else sp.S.EmptySet
+                    elif isinstance(t, sp.Basic):
+                        where = t.as_set()
+                except Exception:
+                    where = None
+                parts.append((y, where))
+        out.append((x, parts[0][1], parts))
     return out
 
 
@@ -333,16 +340,17 @@ def randcap(chk, repo):
     polar_set = sp.Union(sp.Interval(-sp.oo, -POLE), sp.Interval(POLE, sp.oo))
     assume_direct = {}
     polar_ok = None
-    if preds and all(s is not None for _, s in preds):
-        polar_ok = True
-        for node, s in preds:
-            if s == polar_set:
-                assume_direct["text:" + norm(node)] = False
-            elif s == sp.Interval.open(-POLE, POLE):
-                assume_direct["text:" + norm(node)] = True
-            else:
-                polar_ok = False
-                assume_direct["text:" + norm(node)] = not (sp.Integer(90) in s)
+    away = sp.Interval.open(-POLE, POLE)        # centre latitudes of the direct construction
+    if preds and all(s is not None for _, s, _ in preds):
+        polar_ok = all(s in (polar_set, away) for _, s, _ in preds)
+        for _, _, parts in preds:
+            for node, s in parts:               # the test and its sub-conditions, as far as they are constant away from the poles
+                if s is None:
+                    continue
+                if s.intersect(away) == sp.S.EmptySet:
+                    assume_direct["text:" + norm(node)] = False
+                elif away.is_subset(s):
+                    assume_direct["text:" + norm(node)] = True
     args = {"nrand": nrand, "ra": ra, "dec": dec, "rad": rad, "rng": rng}
 
     def unrec(keys, why):
@@ -371,6 +379,8 @@ def randcap(chk, repo):
         chk.ob(R, "randcap[direct]::returns-triple", False, w, "get_radius=True must return (ra, dec, radius); got %d values" % len(res))
     else:
         ok = len(dr) == 2 and all(d[1] in UNIFORM_FAMILY for d in dr) and prov
+        if len(dr) > 2 and any(isinstance(x, sp.Piecewise) for x in res):
+            ok = None       # both constructions were evaluated and merged: the path selection was not recognised
         chk.ob(R, "randcap[direct]::draws-from-passed-generator", ok if sites else None, w,
                "exactly two uniform deviates (radius, position angle), every draw a method of the passed generator with size = the requested count: "
                "evaluated draws %s; draw sites %s" % ([(d[1], d[2], d[4]) for d in dr], sites))
@@ -445,7 +455,7 @@ def randcap(chk, repo):
     if polar_ok is None or res2 is None:
         chk.ob(R, "randcap::polar-fallback", None, w, "polar test or rotated path not recognised")
     elif not polar_ok:
-        chk.ob(R, "randcap::polar-fallback", False, w, "centres within 0.1 degree of a pole use the rotated path: the latitude test holds on %s" % [str(s) for _, s in preds])
+        chk.ob(R, "randcap::polar-fallback", False, w, "centres within 0.1 degree of a pole use the rotated path: the latitude test holds on %s" % [str(s) for _, s, _ in preds])
     else:
         ok = True
         why = ""
@@ -479,8 +489,33 @@ SAMPLERS = [CO + "randsphere", CO + "randcap", RA + "Generator.__init__", RA + "
             RA + "Generator.generate_cut_values", RA + "CholeskySampler.__init__", RA + "CholeskySampler.sample", RA + "cholesky_sample", RA + "random_indices"]
 
 
+def _private_callees(repo, fi):
+    """package-private functions / methods of the same class that fi calls"""
+    out = []
+    for x in walk_no_nested(fi.node):
+        if not isinstance(x, ast.Call):
+            continue
+        d = dotted_name(x.func)
+        if not d:
+            continue
+        if d.startswith("self.") and d.count(".") == 1 and fi.cls:
+            full = "%s.%s.%s" % (fi.module.name, fi.cls, d[5:])
+        else:
+            full = repo.resolve_name(fi.module, d)
+        leaf = full.rsplit(".", 1)[-1]
+        if repo.has(full) and leaf.startswith("_") and not leaf.startswith("__") and full not in out:
+            out.append(full)
+    return out
+
+
 def rng_discipline(chk, repo):
-    for q in SAMPLERS:
+    units = list(SAMPLERS)
+    for q in units:                     # the list grows while it is walked: helpers the samplers were split into
+        if repo.has(q):
+            for h in _private_callees(repo, repo.func(q)):
+                if h not in units:
+                    units.append(h)
+    for q in units:
         fi = repo.func(q)
         chk.analysed_unit(q)
         cfg = cfg_of(fi)
@@ -524,54 +559,634 @@ def rng_discipline(chk, repo):
         shutil.rmtree(d, ignore_errors=True)
 
 
+# --------------------------------------------------------------------------
+# a small forward evaluator for the set-up / transform code of the samplers: every value becomes a term over the inputs in which
+# library calls stay applied function symbols with their arguments (cumulative_trapezoid(p, x), dot(M, r), x[1:], v[-1], ...),
+# private helpers and methods of the same object are followed, and branches are decided from literal flag values.  It yields the
+# same terms for the same data flow however the statements are grouped into temporaries, helpers, guard clauses or if/else arms.
+# --------------------------------------------------------------------------
+
+class NoVerdict(Exception):
+    """a construct the evaluator does not model: the rules reading its result have no verdict"""
+
+
+class _Ret(Exception):
+    def __init__(self, value):
+        self.value = value
+
+
+class _Raised(Exception):
+    pass
+
+
+UNK = type("Unk", (), {"__repr__": lambda s: "UNK"})()      # a value known only to be undecided (usable in tests, nowhere else)
+NONE_T = sp.Symbol("None")
+Fn = sp.Function
+T_, DOT, ROWADD, ROWADDN, COLADD, COL, AT_, SLICE, SHAPE, SIZE, LEN, RESHAPE, APPLY, CHOL, CUMTRAPZ, CUMSUM, DIFF = [
+    Fn(n) for n in ("T", "DOT", "ROWADD", "ROWADDN", "COLADD", "COL", "AT", "SLICE", "SHAPE", "SIZE", "LEN", "RESHAPE", "APPLY", "CHOL",
+                    "CUMTRAPZ", "CUMSUM", "DIFF")]
+IDENT_FUNCS = {"numpy.array", "numpy.asarray", "numpy.atleast_1d", "numpy.atleast_2d", "numpy.asanyarray", "numpy.ascontiguousarray", "float", "int",
+               "numpy.float64"}
+IDENT_METHODS = {"copy", "astype", "view"}
+ARITH_FUNCS = {"numpy.add": ast.Add, "numpy.subtract": ast.Sub, "numpy.multiply": ast.Mult, "numpy.divide": ast.Div, "numpy.true_divide": ast.Div}
+
+
+def term(v):
+    """python value -> sympy term"""
+    if isinstance(v, sp.Basic):
+        return v
+    if v is None:
+        return NONE_T
+    if isinstance(v, bool):
+        return sp.Symbol("True" if v else "False")
+    if isinstance(v, str):
+        return sp.Symbol(repr(v))
+    if isinstance(v, (tuple, list)):
+        return sp.Tuple(*[term(x) for x in v])
+    raise NoVerdict("value %r is not a term" % (v,))
+
+
+def fname(t):
+    return getattr(getattr(t, "func", None), "__name__", "")
+
+
+def applications(t, name):
+    """all sub-terms that are applications of the function symbol `name`"""
+    return [x for x in sp.preorder_traversal(t) if fname(x) == name]
+
+
+class Mini:
+    def __init__(self, repo, ranks=None):
+        self.repo = repo
+        self.ranks = dict(ranks or {})      # input symbol -> array rank
+        self.state = {}                     # "self.attr" -> value, shared by the methods of one object
+        self.calls = []                     # qualified names of the helpers followed
+        self.square = set()                 # input symbols known to be square matrices
+
+    # ---- ranks / broadcasting -------------------------------------------
+    def rank(self, t):
+        if not isinstance(t, sp.Basic):
+            return None
+        if t in self.ranks:
+            return self.ranks[t]
+        n = fname(t)
+        if t.is_number:
+            return 0
+        if n == "DOT":
+            a, b = self.rank(t.args[0]), self.rank(t.args[1])
+            if a == 2 and b == 2:
+                return 2
+            if a is not None and b is not None and {a, b} == {1, 2}:
+                return 1
+            return None
+        if n in ("T", "ROWADD", "ROWADDN", "COLADD"):
+            return self.rank(t.args[0])
+        if n == "RESHAPE":
+            return len(t.args) - 1
+        if n == "CHOL":
+            return 2
+        if n == "COL":
+            return 2
+        if n == "AT":
+            r = self.rank(t.args[0])
+            return None if r is None or r == 0 else r - 1
+        if isinstance(t, (sp.Add, sp.Mul)):
+            rs = [self.rank(a) for a in t.args]
+            return None if any(r is None for r in rs) else max(rs)
+        return None
+
+    def add(self, a, b):
+        a, b = term(a), term(b)
+        if fname(b) == "COL":
+            return ROWADD(a, b.args[0])
+        if fname(a) == "COL":
+            return ROWADD(b, a.args[0])
+        if self.rank(a) == 2 and self.rank(b) == 1:
+            return COLADD(a, b)
+        if self.rank(b) == 2 and self.rank(a) == 1:
+            return COLADD(b, a)
+        return a + b
+
+    def binop(self, op, a, b):
+        if isinstance(op, type):
+            op = op()
+        if isinstance(op, ast.Add):
+            return self.add(a, b)
+        if isinstance(op, ast.MatMult):
+            return DOT(term(a), term(b))
+        a, b = term(a), term(b)
+        if any(fname(x) == "COL" for x in (a, b)):
+            raise NoVerdict("broadcast of a column in %s" % type(op).__name__)
+        if isinstance(op, ast.Sub):
+            return a - b
+        if isinstance(op, ast.Mult):
+            return a * b
+        if isinstance(op, ast.Div):
+            return a / b
+        if isinstance(op, ast.Pow):
+            return a ** b
+        if isinstance(op, ast.Mod):
+            if any(str(s).startswith("'") for s in a.free_symbols):
+                return UNK
+            return sp.Mod(a, b)
+        raise NoVerdict("operator %s" % type(op).__name__)
+
+    def tnorm(self, t):
+        """transposes pushed to the leaves: T(T(x)) = x, T(A.B) = T(B).T(A), T(X +rows m) = T(X) +cols m"""
+        if not isinstance(t, sp.Basic) or not t.args:
+            return t
+        if fname(t) == "T":
+            x = self.tnorm(t.args[0])
+            n = fname(x)
+            if n == "T":
+                return x.args[0]
+            if self.rank(x) in (0, 1):
+                return x
+            if n == "DOT" and self.rank(x.args[0]) == 2 and self.rank(x.args[1]) == 2:
+                return DOT(self.tnorm(T_(x.args[1])), self.tnorm(T_(x.args[0])))
+            if n == "ROWADD":
+                return COLADD(self.tnorm(T_(x.args[0])), x.args[1])
+            if n == "COLADD":
+                return ROWADD(self.tnorm(T_(x.args[0])), x.args[1])
+            return T_(x)
+        return t.func(*[self.tnorm(a) for a in t.args])
+
+    # ---- functions ---------------------------------------------------------
+    def run(self, fi, bind):
+        """value returned by fi (None when it falls off the end) with parameters bound to `bind` (defaults filled in)"""
+        env = dict(bind)
+        for p in fi.params:
+            pn = p.lstrip("*")
+            if pn not in env and pn in fi.defaults:
+                env[pn] = self.ev(fi.defaults[pn], {}, fi)
+        self.calls.append(fi.qualname)
+        if len(self.calls) > 40:
+            raise NoVerdict("call depth")
+        try:
+            self.body(fi.node.body, env, fi)
+        except _Ret as r:
+            return r.value
+        return None
+
+    def body(self, stmts, env, fi):
+        for st in stmts:
+            self.stmt(st, env, fi)
+
+    def always_raises(self, stmts):
+        return bool(stmts) and isinstance(stmts[-1], ast.Raise) and all(isinstance(s, (ast.Raise, ast.Expr, ast.Assign)) for s in stmts)
+
+    def stmt(self, st, env, fi):
+        if isinstance(st, (ast.Pass, ast.Import, ast.ImportFrom, ast.Global, ast.Assert)):
+            return
+        if isinstance(st, ast.Expr):
+            if isinstance(st.value, ast.Constant):
+                return
+            if isinstance(st.value, ast.Call) and self.followed(st.value, env, fi) is not None:
+                self.ev(st.value, env, fi)
+                return
+            raise NoVerdict("statement-level call `%s` at %s" % (norm(st.value)[:60], fi.where(st)))
+        if isinstance(st, ast.Assign):
+            v = self.ev(st.value, env, fi)
+            for t in st.targets:
+                self.assign(t, v, env, fi)
+            return
+        if isinstance(st, ast.AugAssign):
+            if not isinstance(st.target, (ast.Name, ast.Attribute)):
+                raise NoVerdict("augmented store into `%s` at %s" % (norm(st.target), fi.where(st)))
+            cur = self.ev(symx._load(st.target), env, fi)
+            self.assign(st.target, self.binop(st.op, cur, self.ev(st.value, env, fi)), env, fi)
+            return
+        if isinstance(st, ast.Return):
+            raise _Ret(self.ev(st.value, env, fi) if st.value is not None else None)
+        if isinstance(st, ast.Raise):
+            raise _Raised()
+        if isinstance(st, ast.If):
+            t = self.truth(st.test, env, fi)
+            if t is None:
+                if self.always_raises(st.body):
+                    t = False       # a rejection guard: the valid-input path goes on
+                elif self.always_raises(st.orelse):
+                    t = True
+                else:
+                    raise NoVerdict("test `%s` at %s is not decided by the flags" % (norm(st.test), fi.where(st)))
+            self.body(st.body if t else st.orelse, env, fi)
+            return
+        if isinstance(st, ast.For):
+            self.loop(st, env, fi)
+            return
+        raise NoVerdict("statement %s at %s" % (type(st).__name__, fi.where(st)))
+
+    def loop(self, st, env, fi):
+        """the one loop idiom of this code: `for i in range(N): V[i, :] += m[i]` (row i of V gets m[i] added)"""
+        from vcheck import pat
+        if len(st.body) == 1 and not st.orelse and isinstance(st.target, ast.Name):
+            b = None
+            for p in ("_V[_I, :] += _M[_I]", "_V[_I] += _M[_I]", "_V[_I, :] = _V[_I, :] + _M[_I]", "_V[_I] = _V[_I] + _M[_I]"):
+                b = pat.match(p, st.body[0])
+                if b is not None:
+                    break
+            r = pat.match("range(_N)", st.iter)
+            if b is not None and r is not None and isinstance(b["_I"], ast.Name) and b["_I"].id == st.target.id and isinstance(b["_V"], (ast.Name, ast.Attribute)):
+                v = self.ev(symx._load(b["_V"]), env, fi)
+                m = self.ev(b["_M"], env, fi)
+                n = self.ev(r["_N"], env, fi)
+                self.assign(b["_V"], ROWADDN(term(v), term(m), term(n)), env, fi)
+                return
+        raise NoVerdict("loop at %s" % fi.where(st))
+
+    def assign(self, t, v, env, fi):
+        if isinstance(t, ast.Name):
+            env[t.id] = v
+        elif isinstance(t, ast.Attribute) and norm(t).startswith("self.") and norm(t).count(".") == 1:
+            self.state[norm(t)] = v
+        elif isinstance(t, (ast.Tuple, ast.List)):
+            if isinstance(v, tuple) and len(v) == len(t.elts):
+                for e, x in zip(t.elts, v):
+                    self.assign(e, x, env, fi)
+            elif isinstance(v, sp.Basic):
+                for i, e in enumerate(t.elts):
+                    self.assign(e, AT_(v, sp.Integer(i)), env, fi)
+            else:
+                raise NoVerdict("cannot unpack %r at %s" % (v, fi.where(t)))
+        else:
+            raise NoVerdict("store into `%s` at %s" % (norm(t), fi.where(t)))
+
+    # ---- tests ---------------------------------------------------------------
+    def truth(self, t, env, fi):
+        """True / False / None (undecided)"""
+        if isinstance(t, ast.BoolOp):
+            vals = [self.truth(v, env, fi) for v in t.values]
+            if isinstance(t.op, ast.And):
+                return False if any(v is False for v in vals) else (True if all(v is True for v in vals) else None)
+            return True if any(v is True for v in vals) else (False if all(v is False for v in vals) else None)
+        if isinstance(t, ast.UnaryOp) and isinstance(t.op, ast.Not):
+            v = self.truth(t.operand, env, fi)
+            return None if v is None else (not v)
+        if isinstance(t, ast.Compare) and len(t.ops) == 1:
+            try:
+                a, b = self.ev(t.left, env, fi), self.ev(t.comparators[0], env, fi)
+            except NoVerdict:
+                return None
+            op = t.ops[0]
+            if a is UNK or b is UNK:
+                return None
+            if isinstance(op, (ast.Is, ast.IsNot)):
+                if a is None or b is None:
+                    r = a is None and b is None
+                elif isinstance(a, bool) and isinstance(b, bool):
+                    r = a == b
+                else:
+                    return None
+                return r if isinstance(op, ast.Is) else (not r)
+            const = lambda x: x is None or isinstance(x, (bool, str))
+            if isinstance(op, (ast.Eq, ast.NotEq)) and (const(a) and const(b)):
+                return (a == b) if isinstance(op, ast.Eq) else (a != b)
+            if isinstance(op, (ast.Eq, ast.NotEq)) and isinstance(a, sp.Basic) and isinstance(b, sp.Basic) and a.is_number and b.is_number:
+                return bool(a == b) if isinstance(op, ast.Eq) else bool(a != b)
+            return None
+        try:
+            v = self.ev(t, env, fi)
+        except NoVerdict:
+            return None
+        if v is None or isinstance(v, (bool, str)):
+            return bool(v)
+        if isinstance(v, sp.Basic) and v.is_number:
+            return bool(v != 0)
+        return None
+
+    # ---- expressions -----------------------------------------------------------
+    def resolve(self, node, env, fi):
+        """fully qualified dotted name of a module-level object the expression names, or None when it is a value of this function"""
+        d = dotted_name(node)
+        if not d:
+            return None
+        head = d.split(".")[0]
+        if head in env or head == "self":
+            return None
+        return self.repo.resolve_name(fi.module, d)
+
+    def followed(self, c, env, fi):
+        """the package function a call is followed into: methods of the same object and private helpers; else None"""
+        d = dotted_name(c.func)
+        if not d:
+            return None
+        if d.startswith("self.") and d.count(".") == 1 and fi.cls:
+            q = "%s.%s.%s" % (fi.module.name, fi.cls, d[5:])
+            return self.repo.func(q) if self.repo.has(q) and ("self." + d[5:]) not in self.state else None
+        full = self.resolve(c.func, env, fi)
+        if full and self.repo.has(full):
+            leaf = full.rsplit(".", 1)[1]
+            if leaf.startswith("_") and not leaf.startswith("__"):
+                return self.repo.func(full)
+        return None
+
+    def ev(self, e, env, fi):
+        if e is None:
+            return None
+        if isinstance(e, ast.Constant):
+            v = e.value
+            if v is None or isinstance(v, (bool, str)):
+                return v
+            if isinstance(v, int):
+                return sp.Integer(v)
+            if isinstance(v, float):
+                return sp.Rational(repr(v))
+            raise NoVerdict("constant %r" % (v,))
+        if isinstance(e, ast.Name):
+            if e.id in env:
+                return env[e.id]
+            if e.id in ("True", "False", "None"):
+                return {"True": True, "False": False, "None": None}[e.id]
+            if e.id in fi.module.consts:
+                return self.ev(fi.module.consts[e.id], {}, fi)
+            full = self.repo.resolve_name(fi.module, e.id)
+            if full != e.id or e.id in fi.module.funcs or e.id in fi.module.classes:
+                return sp.Symbol(full)
+            raise NoVerdict("unbound name `%s` at %s" % (e.id, fi.where(e)))
+        if isinstance(e, ast.Attribute):
+            k = norm(e)
+            if k.startswith("self.") and k.count(".") == 1:
+                return self.state[k] if k in self.state else sp.Symbol(k)
+            full = self.resolve(e, env, fi)
+            if full is not None:
+                if full == "numpy.newaxis":
+                    return None
+                if full in ("numpy.pi", "math.pi"):
+                    return sp.pi
+                return sp.Symbol(full)
+            base = self.ev(e.value, env, fi)
+            if e.attr == "T":
+                return T_(term(base))
+            if e.attr == "shape":
+                return SHAPE(term(base))
+            if e.attr == "size":
+                return SIZE(term(base))
+            return Fn("ATTR_" + e.attr)(term(base))
+        if isinstance(e, ast.UnaryOp):
+            if isinstance(e.op, ast.Not):
+                t = self.truth(e.operand, env, fi)
+                return UNK if t is None else (not t)
+            v = term(self.ev(e.operand, env, fi))
+            if isinstance(e.op, ast.USub):
+                return -v
+            if isinstance(e.op, ast.UAdd):
+                return v
+            raise NoVerdict("unary operator at %s" % fi.where(e))
+        if isinstance(e, ast.BinOp):
+            a, b = self.ev(e.left, env, fi), self.ev(e.right, env, fi)
+            if isinstance(e.op, ast.Mod) and isinstance(a, str):
+                return UNK
+            if a is UNK or b is UNK:
+                return UNK
+            return self.binop(e.op, a, b)
+        if isinstance(e, (ast.BoolOp, ast.Compare)):
+            t = self.truth(e, env, fi)
+            return UNK if t is None else t
+        if isinstance(e, ast.IfExp):
+            t = self.truth(e.test, env, fi)
+            if t is None:
+                raise NoVerdict("conditional expression at %s is not decided by the flags" % fi.where(e))
+            return self.ev(e.body if t else e.orelse, env, fi)
+        if isinstance(e, ast.Tuple):
+            return tuple(self.ev(x, env, fi) for x in e.elts)
+        if isinstance(e, ast.List):
+            return sp.Tuple(*[term(self.ev(x, env, fi)) for x in e.elts])
+        if isinstance(e, ast.Subscript):
+            return self.subscript(self.ev(e.value, env, fi), e.slice, env, fi, e)
+        if isinstance(e, ast.Call):
+            return self.call(e, env, fi)
+        if isinstance(e, ast.JoinedStr):
+            return UNK
+        raise NoVerdict("expression %s at %s" % (type(e).__name__, fi.where(e)))
+
+    def index_item(self, s, env, fi):
+        if isinstance(s, ast.Slice):
+            if s.lower is None and s.upper is None and s.step is None:
+                return ":"
+            return ("slice",) + tuple(NONE_T if x is None else term(self.ev(x, env, fi)) for x in (s.lower, s.upper, s.step))
+        v = self.ev(s, env, fi)
+        return "newaxis" if v is None else term(v)
+
+    def subscript(self, base, sl, env, fi, e):
+        if isinstance(sl, ast.Tuple):
+            items = [self.index_item(x, env, fi) for x in sl.elts]
+        else:
+            items = [self.index_item(sl, env, fi)]
+        if isinstance(base, tuple) and len(items) == 1 and isinstance(items[0], sp.Integer) and -len(base) <= int(items[0]) < len(base):
+            return base[int(items[0])]
+        b = term(base)
+        while len(items) > 1 and items[-1] == ":":
+            items.pop()
+        if items == [":"]:
+            return b
+        if items == [":", "newaxis"]:
+            return COL(b)
+        if len(items) == 2 and items[0] == ":" and isinstance(items[1], sp.Basic):
+            return Fn("ATCOL")(b, items[1])
+        if len(items) == 1 and isinstance(items[0], tuple):
+            return SLICE(b, *items[0][1:])
+        if all(isinstance(i, sp.Basic) for i in items):
+            return AT_(b, *items)
+        raise NoVerdict("subscript `%s` at %s" % (norm(e), fi.where(e)))
+
+    def kw_terms(self, c, env, fi, skip=()):
+        return [Fn("KW_" + k.arg)(term(self.ev(k.value, env, fi))) for k in sorted(c.keywords, key=lambda k: k.arg or "") if k.arg and k.arg not in skip]
+
+    def call(self, c, env, fi):
+        f = c.func
+        tgt = self.followed(c, env, fi)
+        if tgt is not None:
+            params = [p for p in tgt.params if not p.startswith("*")]
+            if tgt.cls and params and params[0] == "self":
+                params = params[1:]
+            if len(c.args) > len(params) or any(isinstance(a, ast.Starred) for a in c.args) or any(k.arg is None for k in c.keywords):
+                raise NoVerdict("call `%s` at %s" % (norm(c)[:60], fi.where(c)))
+            bind = {p: self.ev(a, env, fi) for p, a in zip(params, c.args)}
+            for k in c.keywords:
+                bind[k.arg] = self.ev(k.value, env, fi)
+            return self.run(tgt, bind)
+        args = [self.ev(a, env, fi) for a in c.args]
+        if any(a is UNK for a in args):
+            return UNK
+        full = self.resolve(f, env, fi)
+        if full is None and isinstance(f, ast.Name) and f.id not in env:
+            full = f.id
+        if full is not None:
+            leaf = full.rsplit(".", 1)[-1]
+            if full in IDENT_FUNCS and args:
+                return args[0]
+            if full in ARITH_FUNCS and len(args) == 2 and not c.keywords:
+                return self.binop(ARITH_FUNCS[full], args[0], args[1])
+            if full in ("numpy.dot", "numpy.matmul") and len(args) == 2 and not c.keywords:
+                return DOT(term(args[0]), term(args[1]))
+            if full == "numpy.transpose" and len(args) == 1 and not c.keywords:
+                return T_(term(args[0]))
+            if full in ("numpy.linalg.cholesky", "scipy.linalg.cholesky") and len(args) == 1:
+                if c.keywords and not (full.startswith("scipy") and [k.arg for k in c.keywords] == ["lower"] and self.ev(c.keywords[0].value, env, fi) is True):
+                    if full.startswith("scipy"):
+                        return T_(CHOL(term(args[0])))
+                    raise NoVerdict("cholesky keywords at %s" % fi.where(c))
+                if full.startswith("scipy") and not c.keywords:
+                    return T_(CHOL(term(args[0])))       # scipy's default is the upper factor
+                return CHOL(term(args[0]))
+            if full in ("scipy.integrate.cumulative_trapezoid", "scipy.integrate.cumtrapz"):
+                kws = {k.arg: k.value for k in c.keywords}
+                if set(kws) - {"x"} or not args or len(args) > 2 or ("x" in kws and len(args) == 2):
+                    raise NoVerdict("cumulative_trapezoid arguments at %s" % fi.where(c))
+                x = args[1] if len(args) == 2 else (self.ev(kws["x"], env, fi) if "x" in kws else None)
+                if x is None:
+                    raise NoVerdict("cumulative_trapezoid without abscissae at %s" % fi.where(c))
+                return CUMTRAPZ(term(args[0]), term(x))
+            if full == "numpy.cumsum" and len(args) == 1 and not c.keywords:
+                return CUMSUM(term(args[0]))
+            if full == "numpy.diff" and len(args) == 1 and not c.keywords:
+                return DIFF(term(args[0]))
+            if full == "len" and len(args) == 1:
+                return LEN(term(args[0]))
+            if full == "numpy.size" and len(args) == 1:
+                return SIZE(term(args[0]))
+            if full in ("isinstance", "hasattr", "callable", "print"):
+                return UNK
+            return Fn(full)(*([term(a) for a in args] + self.kw_terms(c, env, fi)))
+        if isinstance(f, ast.Attribute):
+            d = dotted_name(f)
+            if d and d.startswith("self.") and d.count(".") == 1:
+                # a callable held by the object (self.pofx, self.dist)
+                return APPLY(term(self.ev(f, env, fi)), *([term(a) for a in args] + self.kw_terms(c, env, fi)))
+            recv = self.ev(f.value, env, fi)
+            if recv is UNK:
+                return UNK
+            r = term(recv)
+            if f.attr in IDENT_METHODS:
+                return r
+            if f.attr == "transpose" and not args and not c.keywords:
+                return T_(r)
+            if f.attr == "dot" and len(args) == 1 and not c.keywords:
+                return DOT(r, term(args[0]))
+            if f.attr == "reshape" and not c.keywords:
+                shp = list(args[0]) if len(args) == 1 and isinstance(args[0], tuple) else args
+                shp = [term(a) for a in shp]
+                if shp == [sp.Integer(-1), sp.Integer(1)]:
+                    return COL(r)
+                return RESHAPE(r, *shp)
+            return Fn("M_" + f.attr)(*([r] + [term(a) for a in args] + self.kw_terms(c, env, fi)))
+        callee = self.ev(f, env, fi)
+        if isinstance(callee, sp.Basic):
+            return APPLY(callee, *([term(a) for a in args] + self.kw_terms(c, env, fi)))
+        raise NoVerdict("call `%s` at %s" % (norm(c)[:60], fi.where(c)))
+
+
+def mini_run(repo, q, bind, state=None, ranks=None):
+    """(value, final object state, evaluator) of the package function q; value is a NoVerdict instance when it was not evaluated"""
+    mv = Mini(repo, ranks)
+    mv.state.update(state or {})
+    try:
+        v = mv.run(repo.func(q), bind)
+    except NoVerdict as e:
+        v = e
+    except _Raised:
+        v = NoVerdict("the selected path ends in raise")
+    return v, mv.state, mv
+
+
+def teq(a, b):
+    if a is None or b is None or not isinstance(a, sp.Basic) or not isinstance(b, sp.Basic):
+        return False
+    if a == b:
+        return True
+    try:
+        return symx.equal(a, b)[0]
+    except Exception:
+        return False
+
+
+def _none(chk, rule, keys, where, why):
+    for k in keys:
+        chk.ob(rule, k, None, where, why)
+
+
 def generator(chk, repo):
-    for q, pof in ((RA + "Generator.initialize_points", "self.pofx"), (RA + "Generator.initialize_func", "pofxvals")):
+    R = "R19.gen"
+    X, PF = sp.Symbol("self.xinput"), sp.Symbol("self.pofx")
+    one = SLICE(X, 1, NONE_T, NONE_T)
+    for q, P, norms in ((RA + "Generator.initialize_points", PF, [AT_(PF, -1)]),
+                        (RA + "Generator.initialize_func", APPLY(PF, X), [AT_(APPLY(PF, X), -1), APPLY(PF, AT_(X, -1))])):
         fi = repo.func(q)
         chk.analysed_unit(q)
-        cfg = cfg_of(fi)
-        v = cfg.specialise(flags={"self.method": "accum", "self.cumulative": False})
-        env = {}
-        for n in v.nodes():
-            if n.kind == "stmt" and isinstance(n.ast, ast.Assign):
-                env[norm(n.ast.targets[0])] = norm(n.ast.value)
-        ok = env.get("pcum", "").endswith("cumulative_trapezoid(%s, self.xinput)" % pof) or env.get("pcum", "").endswith("cumtrapz(%s, self.xinput)" % pof)
-        chk.ob("R19.gen", q + "::trapezoid-cumulative", ok, fi.where(), "the cumulative table is the trapezoid-rule running integral of p over x (%s)" % env.get("pcum"))
-        chk.ob("R19.gen", q + "::normalised", env.get("self.norm") == "pcum[-1]" and env.get("self.pcum") == "pcum / self.norm", fi.where(), "the table is divided by its last value (ends at 1)")
-        chk.ob("R19.gen", q + "::abscissa-alignment", env.get("self.xvals") == "self.xinput[1:]", fi.where(), "cumulative value k belongs to x[k+1]: abscissae are x[1:] (found %s)" % env.get("self.xvals"))
-        v2 = cfg.specialise(flags={"self.method": "accum", "self.cumulative": True})
-        env2 = {}
-        for n in v2.nodes():
-            if n.kind == "stmt" and isinstance(n.ast, ast.Assign):
-                env2[norm(n.ast.targets[0])] = norm(n.ast.value)
-        chk.ob("R19.gen", q + "::cumulative-input-used-as-is", env2.get("self.xvals") == "self.xinput" and "self.norm" in env2.get("self.pcum", ""), fi.where(), "a cumulative input is only normalised by its last value")
+        w = fi.where()
+        # ---- density input: the stored table is the normalised trapezoid integral, aligned with x[1:]
+        v, st, _ = mini_run(repo, q, {}, {"self.method": "accum", "self.cumulative": False})
+        keys = [q + "::trapezoid-cumulative", q + "::normalised", q + "::abscissa-alignment"]
+        if isinstance(v, NoVerdict):
+            _none(chk, R, keys, w, "set-up code not evaluated: %s" % v)
+        else:
+            pcum, nrm, xv = [st.get(k) if isinstance(st.get(k), sp.Basic) else None for k in ("self.pcum", "self.norm", "self.xvals")]
+            tz = CUMTRAPZ(P, X)
+            mid = (SLICE(P, 1, NONE_T, NONE_T) + SLICE(P, NONE_T, -1, NONE_T)) / 2
+            byhand = [CUMSUM(mid * DIFF(X)), CUMSUM(mid * (SLICE(X, 1, NONE_T, NONE_T) - SLICE(X, NONE_T, -1, NONE_T)))]
+            if pcum is None:
+                _none(chk, R, keys[:2], w, "no cumulative table is stored on the accum path")
+            else:
+                U = sp.cancel(pcum * nrm) if nrm is not None else None
+                # (whether it is normalised is the next rule's business)
+                ok = any(teq(pcum, t) or teq(pcum, t / AT_(t, -1)) or (U is not None and (teq(U, t) or teq(pcum, t / nrm))) for t in [tz] + byhand)
+                chk.ob(R, keys[0], ok if (ok or pcum.has(PF)) else None, w,
+                       "the cumulative table is the trapezoid-rule running integral of p over x (table: %s)" % str(U if U is not None else pcum)[:200])
+                if nrm is not None:
+                    ok = teq(nrm, AT_(U, -1)) and teq(pcum, U / AT_(U, -1))
+                else:
+                    ok = True if any(teq(pcum, t / AT_(t, -1)) for t in [tz] + byhand) else None
+                chk.ob(R, keys[1], ok, w, "the table is divided by its last value (ends at 1): pcum = %s, norm = %s" % (str(pcum)[:160], str(nrm)[:80]))
+            chk.ob(R, keys[2], None if xv is None else teq(xv, one), w, "cumulative value k belongs to x[k+1]: abscissae are x[1:] (found %s)" % xv)
+        # ---- cumulative input
+        v, st, _ = mini_run(repo, q, {}, {"self.method": "accum", "self.cumulative": True})
+        if isinstance(v, NoVerdict):
+            _none(chk, R, [q + "::cumulative-input-used-as-is"], w, "set-up code not evaluated: %s" % v)
+        else:
+            pcum, nrm, xv = [st.get(k) if isinstance(st.get(k), sp.Basic) else None for k in ("self.pcum", "self.norm", "self.xvals")]
+            if pcum is None or xv is None:
+                ok = None
+            else:
+                ok = teq(xv, X) and any(teq(pcum, P / n_) for n_ in norms) and (nrm is None or any(teq(nrm, n_) for n_ in norms))
+            chk.ob(R, q + "::cumulative-input-used-as-is", ok, w,
+                   "a cumulative input is only normalised by its last value (xvals = %s, pcum = %s)" % (xv, str(pcum)[:160]))
+    # ---- the draw: u from the object's own generator, x(u) by inverse linear interpolation of the table
     fi = repo.func(RA + "Generator._genrand_accum")
     chk.analysed_unit(fi.qualname)
-    env = {norm(x.targets[0]): x.value for x in walk_no_nested(fi.node) if isinstance(x, ast.Assign)}
-    u = env.get("urand")
-    ok = isinstance(u, ast.Call) and norm(u.func) == "self.rng.uniform" and kwarg(u, "size") is not None and norm(kwarg(u, "size")) == "numrand" and not u.args
-    chk.ob("R19.gen", fi.qualname + "::uniform-deviates-from-own-generator", ok, fi.where(), "u = self.rng.uniform(size=numrand) on [0,1)")
-    r = env.get("rand")
-    ok = isinstance(r, ast.Call) and call_name(r) == "interplin" and [norm(a) for a in r.args] == ["self.xvals", "self.pcum", "urand"]
-    chk.ob("R19.gen", fi.qualname + "::inverse-interpolation-roles", ok, fi.where(), "x(u) = interplin(values=xvals, abscissae=pcum, at=u)")
-    rets = [x for x in walk_no_nested(fi.node) if isinstance(x, ast.Return)]
-    chk.ob("R19.gen", fi.qualname + "::returns-interpolant", len(rets) == 1 and norm(rets[0].value) == "rand", fi.where(), "the interpolated values are returned unmodified")
+    w = fi.where()
+    numrand = sp.Symbol("numrand")
+    gen = sp.Symbol("self.rng")
+    keys = [fi.qualname + "::uniform-deviates-from-own-generator", fi.qualname + "::inverse-interpolation-roles", fi.qualname + "::returns-interpolant"]
+    acc, _, _ = mini_run(repo, fi.qualname, {"numrand": numrand})
+    if not isinstance(acc, sp.Basic):
+        _none(chk, R, keys, w, "draw not evaluated: %s" % (acc,))
+    else:
+        unit = [Fn("M_uniform")(gen, Fn("KW_size")(numrand)), Fn("M_random")(gen, numrand), Fn("M_random")(gen, Fn("KW_size")(numrand)),
+                Fn("M_random_sample")(gen, numrand), Fn("M_random_sample")(gen, Fn("KW_size")(numrand))]
+        draws = [x for x in sp.preorder_traversal(acc) if fname(x).startswith("M_") and fname(x)[2:] in DRAW_METHODS]
+        glob = [x for x in sp.preorder_traversal(acc) if fname(x).startswith("numpy.random.")]
+        if not draws and not glob:
+            chk.ob(R, keys[0], None, w, "no generator draw found in %s" % str(acc)[:160])
+        else:
+            chk.ob(R, keys[0], len(draws) == 1 and not glob and draws[0] in unit, w, "u = self.rng.uniform(size=numrand) on [0,1) (found %s)" % (draws + glob))
+        ip = [x for x in sp.preorder_traversal(acc) if fname(x).rsplit(".", 1)[-1] == "interplin"]
+        if len(ip) != 1 or len(draws) != 1:
+            _none(chk, R, keys[1:], w, "no single interplin application of a single deviate array in %s" % str(acc)[:160])
+        else:
+            chk.ob(R, keys[1], ip[0].args == (sp.Symbol("self.xvals"), sp.Symbol("self.pcum"), draws[0]), w,
+                   "x(u) = interplin(values=xvals, abscissae=pcum, at=u) (found %s)" % str(ip[0])[:160])
+            chk.ob(R, keys[2], acc == ip[0], w, "the interpolated values are returned unmodified")
     # Generator.sample dispatch and count
     fi = repo.func(RA + "Generator.sample")
-    cfg = cfg_of(fi)
-    view = cfg.view()
-    ok = False
-    for n in cfg.nodes:
-        for c in rules.stmts_calls(n):
-            if call_name(c) == "_genrand_accum":
-                ts = dict(rules.controlling_tests(view, n))
-                ok = ts.get("self.method == 'accum'") == "T" and [norm(a) for a in c.args] == ["numrand"]
-    chk.ob("R19.gen", fi.qualname + "::accum-dispatch-with-requested-count", ok, fi.where(), "method 'accum' draws exactly numrand values")
+    got, _, _ = mini_run(repo, fi.qualname, {"numrand": numrand}, {"self.method": "accum"})
+    ok = None if not (isinstance(got, sp.Basic) and isinstance(acc, sp.Basic)) else (got == acc)
+    chk.ob(R, fi.qualname + "::accum-dispatch-with-requested-count", ok, fi.where(), "method 'accum' draws exactly numrand values (%s)" % str(got)[:160])
     # the generator stored is the one passed
     fi = repo.func(RA + "Generator.__init__")
     cfg = cfg_of(fi)
     view = cfg.view()
-    st = [(norm(n.ast.value), dict(rules.controlling_tests(view, n)).get("rng is None")) for n in cfg.nodes if n.kind == "stmt" and isinstance(n.ast, ast.Assign) and norm(n.ast.targets[0]) == "self.rng"]
-    chk.ob("R19.gen", fi.qualname + "::keeps-passed-generator", sorted(st, key=str) == sorted([("numpy.random.RandomState(seed=seed)", "T"), ("rng", "F")], key=str), fi.where(), "self.rng is the passed generator, or a seeded RandomState when none is given (%s)" % st)
+    st = [(rules.xnorm(n.ast.value, fi.node), dict(rules.controlling_tests(view, n)).get("rng is None")) for n in cfg.nodes if n.kind == "stmt" and isinstance(n.ast, ast.Assign) and norm(n.ast.targets[0]) == "self.rng"]
+    chk.ob(R, fi.qualname + "::keeps-passed-generator", sorted(st, key=str) == sorted([("numpy.random.RandomState(seed=seed)", "T"), ("rng", "F")], key=str), fi.where(), "self.rng is the passed generator, or a seeded RandomState when none is given (%s)" % st)
 
 
 def _raw_after_normalise(chk, fi, rule):
@@ -592,46 +1207,219 @@ def _raw_after_normalise(chk, fi, rule):
     return n
 
 
+def _resolve_rowadd(mv, t):
+    """the loop form `for i in range(N): V[i, :] += m[i]` covers every row when N is the row count of V (or the length of m)"""
+    def rows(x):
+        n = fname(x)
+        if n == "RESHAPE":
+            return x.args[1]
+        if n == "CHOL":
+            return AT_(SHAPE(x.args[0]), 0)
+        if n in ("ROWADD", "ROWADDN", "COLADD"):
+            return rows(x.args[0])
+        if n == "DOT":
+            a, b = x.args
+            r = rows(a)
+            if r is None and (fname(a) == "CHOL" or a in mv.square):
+                r = rows(b)
+            return r
+        return None
+    if not isinstance(t, sp.Basic) or not t.args:
+        return t
+    t = t.func(*[_resolve_rowadd(mv, a) for a in t.args])
+    if fname(t) == "ROWADDN":
+        V, m, N = t.args
+        if N in (rows(V), LEN(m), SIZE(m)) and N is not None:
+            return ROWADD(V, m)
+    return t
+
+
 def cholesky(chk, repo):
+    R = "R19.chol"
     fi = repo.func(RA + "CholeskySampler.__init__")
     chk.analysed_unit(fi.qualname)
-    n = _raw_after_normalise(chk, fi, "R19.chol")
-    chk.ob("R19.chol", fi.qualname + "::normalisations-found", n == 2, fi.where(), "mean and cov are normalised to arrays (%d)" % n)
-    env = {norm(x.targets[0]): norm(x.value) for x in walk_no_nested(fi.node) if isinstance(x, ast.Assign)}
-    chk.ob("R19.chol", fi.qualname + "::factor", env.get("self.M") == "numpy.linalg.cholesky(self.cov)", fi.where(), "M is the (lower-triangular) Cholesky factor of the stored covariance")
-    cfg = cfg_of(fi)
-    st = [(norm(n_.ast.value), dict(rules.controlling_tests(cfg.view(), n_)).get("dist is None")) for n_ in cfg.nodes if n_.kind == "stmt" and isinstance(n_.ast, ast.Assign) and norm(n_.ast.targets[0]) in ("dist", "self.dist")]
-    chk.ob("R19.chol", fi.qualname + "::deviate-source", ("numpy.random.randn", "T") in st and ("dist", None) in st, fi.where(), "the deviate source is the one passed (default numpy.random.randn): %s" % st)
-    for q, M, mean, guard in ((RA + "CholeskySampler.sample", "self.M", "mean", None), (RA + "cholesky_sample", "M", "means", "means is not None")):
+    n = _raw_after_normalise(chk, fi, R)
+    chk.ob(R, fi.qualname + "::normalisations-found", n == 2, fi.where(), "mean and cov are normalised to arrays (%d)" % n)
+    mean_s, cov_s, dist_s, n_s = sp.Symbol("mean"), sp.Symbol("cov"), sp.Symbol("dist"), sp.Symbol("n")
+    v, st, _ = mini_run(repo, fi.qualname, {"mean": mean_s, "cov": cov_s, "dist": dist_s})
+    v0, st0, _ = mini_run(repo, fi.qualname, {"mean": mean_s, "cov": cov_s, "dist": None})
+    if isinstance(v, NoVerdict) or isinstance(v0, NoVerdict) or not isinstance(st.get("self.M"), sp.Basic):
+        _none(chk, R, [fi.qualname + "::factor", fi.qualname + "::deviate-source"], fi.where(), "constructor not evaluated: %s" % (v if isinstance(v, NoVerdict) else v0))
+    else:
+        chk.ob(R, fi.qualname + "::factor", st.get("self.cov") == cov_s and st["self.M"] == CHOL(cov_s), fi.where(),
+               "M is the (lower-triangular) Cholesky factor of the stored covariance (self.M = %s, self.cov = %s)" % (st["self.M"], st.get("self.cov")))
+        chk.ob(R, fi.qualname + "::deviate-source", st.get("self.dist") == dist_s and st0.get("self.dist") == sp.Symbol("numpy.random.randn"), fi.where(),
+               "the deviate source is the one passed (default numpy.random.randn): %s / %s" % (st.get("self.dist"), st0.get("self.dist")))
+    for q in (RA + "CholeskySampler.sample", RA + "cholesky_sample"):
         fi = repo.func(q)
         chk.analysed_unit(q)
-        env = {norm(x.targets[0]): norm(x.value) for x in walk_no_nested(fi.node) if isinstance(x, ast.Assign)}
-        dist = "self.dist" if "Sampler" in q else "dist"
-        chk.ob("R19.chol", q + "::deviates", env.get("r") == "%s(npar * n).reshape(npar, n)" % dist, fi.where(), "npar*n standard deviates drawn once from the deviate source, shaped (npar, n) (%s)" % env.get("r"))
-        chk.ob("R19.chol", q + "::factor-times-deviates", env.get("V") == "numpy.dot(%s, r)" % M, fi.where(), "V = M . r (%s)" % env.get("V"))
-        if "Sampler" not in q:
-            chk.ob("R19.chol", q + "::factor", env.get("M") == "numpy.linalg.cholesky(cov)", fi.where(), "M = cholesky(cov)")
-        loops = [x for x in walk_no_nested(fi.node) if isinstance(x, ast.For)]
-        ok = len(loops) == 1 and norm(loops[0].iter) == "range(npar)" and len(loops[0].body) == 1 and norm(loops[0].body[0]) == "V[%s, :] += %s[%s]" % (norm(loops[0].target), mean, norm(loops[0].target))
-        chk.ob("R19.chol", q + "::mean-added-per-parameter", ok, fi.where(), "row i gets mean[i] added")
-        rets = {norm(x.value) for x in walk_no_nested(fi.node) if isinstance(x, ast.Return)}
-        want = {"V.T"} if "Sampler" not in q else {"samples", "samples[0, :]"}
-        chk.ob("R19.chol", q + "::returns-transpose", rets == want and (("Sampler" not in q) or env.get("samples") == "V.T"), fi.where(), "result is (n, npar): the transpose of M.r + mean (%s)" % sorted(rets))
+        w = fi.where()
+        method = "Sampler" in q
+        if method:
+            M, mean, dist, npar = sp.Symbol("self.M"), sp.Symbol("self.mean"), sp.Symbol("self.dist"), sp.Symbol("self.npar")
+            bind = {"n": n_s}
+        else:
+            M, mean, dist, npar = CHOL(cov_s), sp.Symbol("means"), dist_s, AT_(SHAPE(cov_s), 0)
+            bind = {"cov": cov_s, "n": n_s, "means": mean, "dist": dist}
+        ranks = {sp.Symbol("self.M"): 2, mean: 1, cov_s: 2}
+
+        def evaluate(b):
+            val, _, mv = mini_run(repo, q, b, ranks=ranks)
+            mv.square = {sp.Symbol("self.M")}
+            if isinstance(val, sp.Basic):
+                val = mv.tnorm(_resolve_rowadd(mv, val))
+            return val, mv
+
+        def ref(nn, with_mean=True):
+            mv = Mini(repo, ranks)
+            Rr = RESHAPE(APPLY(dist, npar * nn), npar, nn)
+            V = DOT(M, Rr)
+            return mv.tnorm(T_(ROWADD(V, mean) if with_mean else V)), Rr, mv.tnorm(T_(V))
+
+        keys = [q + "::deviates", q + "::factor-times-deviates", q + "::mean-added-per-parameter", q + "::returns-transpose"] + ([] if method else [q + "::factor"])
+        c, mv = evaluate(bind)
+        if not isinstance(c, sp.Basic):
+            _none(chk, R, keys, w, "sampler not evaluated: %s" % (c,))
+            continue
+        want, Rr, prod = ref(n_s)
+        # npar*n standard deviates, drawn once from the deviate source, shaped (npar, n)
+        drawn = applications(c, "APPLY")
+        okd = len(drawn) == 1 and drawn[0] == APPLY(dist, npar * n_s) and c.has(Rr)
+        chk.ob(R, keys[0], okd if drawn else None, w, "npar*n standard deviates drawn once from the deviate source, shaped (npar, n) (%s)" % [str(x) for x in drawn])
+        dots = applications(c, "DOT")
+        chk.ob(R, keys[1], (c.has(prod) or c.has(DOT(M, Rr))) if dots else None, w, "V = M . r (%s)" % [str(x)[:120] for x in dots])
+        adds = [x for x in sp.preorder_traversal(c) if fname(x) in ("ROWADD", "ROWADDN", "COLADD")]
+        if adds:
+            # (n, npar) orientation: the mean runs along the columns; (npar, n) orientation (a missing transpose is the next rule's business): along the rows
+            okm = len(adds) == 1 and adds[0] in (COLADD(prod, mean), ROWADD(DOT(M, Rr), mean))
+        else:
+            okm = None if c.has(mean) else False
+        chk.ob(R, keys[2], okm, w, "row i gets mean[i] added (%s)" % ([str(x)[:160] for x in adds] or "the mean does not enter the result"))
+        okr = teq(c, want)
+        detail = str(c)[:200]
+        if method:
+            # without a count a single sample (the first row of the n = 1 result) is returned
+            c1, _ = evaluate({"n": None})
+            w1, R1, _ = ref(sp.Integer(1))
+            alts = [AT_(w1, 0), DOT(M, APPLY(dist, npar)) + mean, COLADD(DOT(M, APPLY(dist, npar)), mean)]
+            if not isinstance(c1, sp.Basic):
+                okr = None if okr else False
+                detail += "; n=None: %s" % (c1,)
+            elif not any(teq(c1, a) for a in alts):
+                okr = False
+                detail += "; n=None returns %s" % str(c1)[:200]
+        else:
+            # without means nothing is added
+            c0, _ = evaluate(dict(bind, means=None))
+            w0 = ref(n_s, with_mean=False)[0]
+            if not isinstance(c0, sp.Basic):
+                okr = None if okr else False
+                detail += "; means=None: %s" % (c0,)
+            elif not teq(c0, w0):
+                okr = False
+                detail += "; means=None returns %s" % str(c0)[:200]
+        chk.ob(R, keys[3], okr, w, "result is (n, npar): the transpose of M.r + mean (%s)" % detail)
+        if not method:
+            ch = applications(c, "CHOL")
+            chk.ob(R, keys[4], (ch == [CHOL(cov_s)] or set(ch) == {CHOL(cov_s)}) if ch else None, w, "M = cholesky(cov) (%s)" % [str(x) for x in ch])
     cs = repo.func(RA + "cholesky_sample")
-    cfg = cfg_of(cs)
-    ok = any(("nm != cov.shape[0]", "T") in rules.controlling_tests(cfg.view(), n_) for n_ in rules.raise_nodes(cfg))
-    chk.ob("R19.chol", cs.qualname + "::mean-length-checked", ok, cs.where(), "a mean vector of the wrong length is rejected")
+    chk.ob(R, cs.qualname + "::mean-length-checked", _length_guard(repo, cs, "means", "cov"), cs.where(), "a mean vector of the wrong length is rejected")
+
+
+def _must_hold(test, label):
+    """[(atom, polarity)] that are known when the branch on `test` is left by the edge `label`"""
+    if isinstance(test, ast.UnaryOp) and isinstance(test.op, ast.Not):
+        return _must_hold(test.operand, "F" if label == "T" else "T")
+    if isinstance(test, ast.BoolOp) and ((isinstance(test.op, ast.And) and label == "T") or (isinstance(test.op, ast.Or) and label == "F")):
+        out = []
+        for v in test.values:
+            out += _must_hold(v, label)
+        return out
+    return [(test, label == "T")]
+
+
+def _length_guard(repo, fi, vec, mat):
+    """True: some raise is reached only when len(vec) differs from the dimension of mat; False: no raise depends on vec at all;
+    None: a rejection depending on vec exists but is not of a recognised form"""
+    lens = {"len(%s)" % vec, "numpy.size(%s)" % vec, "numpy.asarray(%s).size" % vec, "numpy.array(%s).size" % vec, "numpy.asarray(%s).shape[0]" % vec}
+    dims = {"%s.shape[0]" % mat, "%s.shape[1]" % mat, "len(%s)" % mat, "numpy.linalg.cholesky(%s).shape[0]" % mat}
+    cfg = cfg_of(fi)
+    view = cfg.view()
+    mentions = wrong = False
+    for rn in rules.raise_nodes(cfg):
+        for b, lab in view.controlling_branches(rn):
+            if b.kind != "branch":
+                continue
+            t = rules.expand(b.ast.test, fi.node)
+            for atom, pos in _must_hold(t, lab):
+                if isinstance(atom, ast.Compare) and len(atom.ops) == 1:
+                    a, b_ = norm(atom.left), norm(atom.comparators[0])
+                    if isinstance(atom.ops[0], (ast.Is, ast.IsNot)) and "None" in (a, b_):
+                        continue        # `vec is not None` only says that there is something to check
+                    if (a in lens and b_ in dims) or (b_ in lens and a in dims):
+                        if (isinstance(atom.ops[0], ast.NotEq) and pos) or (isinstance(atom.ops[0], ast.Eq) and not pos):
+                            return True
+                        wrong = True    # the two lengths are compared, but not for being different
+                        continue
+                if vec in rules.names_in(atom):
+                    mentions = True
+    if wrong:
+        return False
+    if mentions:
+        return None
+    # the vector may be handed to a private helper that validates it
+    for x in walk_no_nested(fi.node):
+        if isinstance(x, ast.Call) and any(isinstance(a, ast.Name) and a.id == vec for a in list(x.args) + [k.value for k in x.keywords]):
+            d = dotted_name(x.func)
+            full = repo.resolve_name(fi.module, d) if d else None
+            if full and repo.has(full) and any(isinstance(y, ast.Raise) for y in walk_no_nested(repo.func(full).node)):
+                return None
+    return False
+
+
+def _choice_args(t):
+    """{a, size, replace} of an application M_choice(recv, ...) (numpy signature choice(a, size=None, replace=True, p=None))"""
+    out = {"recv": t.args[0]}
+    names = ["a", "size", "replace", "p"]
+    pos = 0
+    for x in t.args[1:]:
+        if fname(x).startswith("KW_"):
+            out[fname(x)[3:]] = x.args[0]
+        else:
+            if pos >= len(names):
+                return None
+            out[names[pos]] = x
+            pos += 1
+    return out
 
 
 def indices(chk, repo):
+    R = "R19.ind"
     fi = repo.func(RA + "random_indices")
     chk.analysed_unit(fi.qualname)
-    cfg = cfg_of(fi)
-    for uq, want in ((True, "False"), (False, "True")):
-        v = cfg.specialise(flags={"unique": uq})
-        vals = {norm(n.ast.value) for n in v.nodes() if n.kind == "stmt" and isinstance(n.ast, ast.Assign) and norm(n.ast.targets[0]) == "replace"}
-        chk.ob("R19.ind", "%s[unique=%s]::replace" % (fi.qualname, uq), vals == {want}, fi.where(), "unique=%s draws with replace=%s (found %s)" % (uq, want, sorted(vals)))
-    rets = [x for x in walk_no_nested(fi.node) if isinstance(x, ast.Return)]
-    chk.ob("R19.ind", fi.qualname + "::choice-on-generator", len(rets) == 1 and norm(rets[0].value) == "rng.choice(imax, size=nrand, replace=replace)", fi.where(), "indices are rng.choice(imax, size=nrand, replace=replace): range [0,imax), requested count")
-    st = [(norm(n.ast.value), dict(rules.controlling_tests(cfg.view(), n)).get("rng is None")) for n in cfg.nodes if n.kind == "stmt" and isinstance(n.ast, ast.Assign) and norm(n.ast.targets[0]) == "rng"]
-    chk.ob("R19.ind", fi.qualname + "::seeded-fallback", st == [("numpy.random.default_rng(seed)", "T")], fi.where(), "without a generator a new one is seeded from seed= (%s)" % st)
+    w = fi.where()
+    imax, nrand, gen, seed = sp.Symbol("imax"), sp.Symbol("nrand"), sp.Symbol("rng"), sp.Symbol("seed")
+    shapes = []
+    for uq in (True, False):
+        v, _, _ = mini_run(repo, fi.qualname, {"imax": imax, "nrand": nrand, "unique": uq, "rng": gen, "seed": seed})
+        ch = applications(v, "M_choice") if isinstance(v, sp.Basic) else []
+        a = _choice_args(ch[0]) if len(ch) == 1 and v == ch[0] else None
+        shapes.append(a)
+        if a is None:
+            chk.ob(R, "%s[unique=%s]::replace" % (fi.qualname, uq), None, w, "the result is not one <generator>.choice(...) application: %s" % (v,))
+        else:
+            chk.ob(R, "%s[unique=%s]::replace" % (fi.qualname, uq), a.get("replace", sp.Symbol("True")) == sp.Symbol(str(not uq)), w,
+                   "unique=%s draws with replace=%s (found %s)" % (uq, not uq, a.get("replace", "the default True")))
+    if any(a is None for a in shapes):
+        chk.ob(R, fi.qualname + "::choice-on-generator", None, w, "choice application not recognised")
+    else:
+        ok = all(a["recv"] == gen and a.get("a") == imax and a.get("size") == nrand and "p" not in a for a in shapes)
+        chk.ob(R, fi.qualname + "::choice-on-generator", ok, w, "indices are rng.choice(imax, size=nrand, replace=replace): range [0,imax), requested count")
+    v, _, _ = mini_run(repo, fi.qualname, {"imax": imax, "nrand": nrand, "unique": True, "rng": None, "seed": seed})
+    ch = applications(v, "M_choice") if isinstance(v, sp.Basic) else []
+    if len(ch) != 1:
+        chk.ob(R, fi.qualname + "::seeded-fallback", None, w, "choice application not recognised: %s" % (v,))
+    else:
+        recv = ch[0].args[0]
+        ok = recv in (Fn("numpy.random.default_rng")(seed), Fn("numpy.random.default_rng")(Fn("KW_seed")(seed)))
+        chk.ob(R, fi.qualname + "::seeded-fallback", ok, w, "without a generator a new one is seeded from seed= (%s)" % recv)
